@@ -16,6 +16,7 @@
 //	sw <validate> <nArb> <k> {<index>}*k      signer loop of checkSchnorrWithdrawFromSidechain
 //	blk <auxOk> <powOk> <tsOk> <maxTx> <flags> CheckBlockSanity on an assembled, serialized and decoded block (see execBlk)
 //	txs <height> <tx bytes> / blkc <block bytes> / cfm <confirm bytes>   systematic sweep on a real in-process node (see execTxs)
+//	nta / ntv / pgen                          NextTurnDPOSInfo comparison helpers; a second genesis block (see execNt, execPgen)
 //	tcc <nOutputs> <index> / rtd <tx|bc> <nPrograms> <code>   targeted: cross-chain output index, RevertToDPOS programs (see execTcc)
 //	rcr <code> / ina <tx|bc> <code>            RegisterCR key extraction; checkCRCArbitratorsSignatures m/n read (see execRcr, execIna)
 //	rdc <addrs> <np> {<code> <registered>}*    ReturnDepositCoin SpecialContextCheck signer loop (see execRdc)
@@ -814,10 +815,119 @@ func execDpb(t []string) string {
 	return "nopanic"
 }
 
+// ---------------------------------------------------------------- round 7: NextTurnDPOSInfo helpers, second genesis
+//
+//	nta <cr ids> <dpos ids> <next id:isCRC:elected;…>            isNextArbitratorsSame   → true | false | panic
+//	ntv <cr ids> <dpos ids> <next id:elected;…> <nextCRC id:elected;…>   isNextArbitratorsSameV1
+//	    ids are comma separated small numbers ("-" = none); key 0 is the empty key, key k the 33 bytes 02 k k … k
+//	pgen <timestamp offset>   a sane block with Previous = zero hash and Height 0 (valid coinbase, merged-mining
+//	                          proof and PoW) given to BlockChain.ProcessBlock of the real node, which already has a
+//	                          genesis block → rejected | accepted | panic
+
+type ntArbs struct {
+	*state.ArbitratorsMock
+	crc, elected map[string]bool
+}
+
+func (a *ntArbs) IsNextCRCArbitrator(pk []byte) bool              { return a.crc[string(pk)] }
+func (a *ntArbs) IsMemberElectedNextCRCArbitrator(pk []byte) bool { return a.elected[string(pk)] }
+
+func ntKey(id int) []byte {
+	if id == 0 {
+		return []byte{}
+	}
+	k := bytes.Repeat([]byte{byte(id)}, 33)
+	k[0] = 2
+	return k
+}
+
+func ntIDs(s string) [][]byte {
+	out := [][]byte{}
+	if s == "-" {
+		return out
+	}
+	for _, f := range strings.Split(s, ",") {
+		out = append(out, ntKey(atoi(f)))
+	}
+	return out
+}
+
+func execNt(t []string) string {
+	arbs := &ntArbs{ArbitratorsMock: cbMock, crc: map[string]bool{}, elected: map[string]bool{}}
+	blockchain.DefaultLedger = &blockchain.Ledger{Arbitrators: arbs}
+	info := &payload.NextTurnDPOSInfo{CRPublicKeys: ntIDs(t[1]), DPOSPublicKeys: ntIDs(t[2])}
+	parse := func(s string, withCRC bool) (keys [][]byte) {
+		keys = [][]byte{}
+		if s == "-" {
+			return
+		}
+		for _, e := range strings.Split(s, ";") {
+			f := strings.Split(e, ":")
+			k := ntKey(atoi(f[0]))
+			keys = append(keys, k)
+			if withCRC {
+				if f[1] == "1" {
+					arbs.crc[string(k)] = true
+				}
+				if f[2] == "1" {
+					arbs.elected[string(k)] = true
+				}
+			} else if f[1] == "1" {
+				arbs.elected[string(k)] = true
+			}
+		}
+		return
+	}
+	var next []*state.ArbiterInfo
+	for _, k := range parse(t[3], t[0] == "nta") {
+		next = append(next, &state.ArbiterInfo{NodePublicKey: k, IsNormal: true})
+	}
+	if t[0] == "nta" {
+		return b2s(transaction.VerifC03IsNextArbitratorsSame(info, next))
+	}
+	return b2s(transaction.VerifC03IsNextArbitratorsSameV1(info, next, parse(t[4], false)))
+}
+
+func execPgen(t []string) string {
+	n := getNode()
+	lastStage = "built"
+	cbBlock, err := n.Mine(n.Genesis, nil)
+	if err != nil {
+		panic("harness: mine")
+	}
+	blk := &types.Block{}
+	blk.Header.Version = 0
+	blk.Header.Height = 0
+	blk.Header.Timestamp = n.Genesis.Timestamp + uint32(atoi(t[1]))
+	blk.Header.Bits = 0x207fffff
+	blk.Transactions = []interfaces.Transaction{cbBlock.Transactions[0]}
+	blk.Header.MerkleRoot = cbBlock.Transactions[0].Hash()
+	hash := blk.Header.Hash()
+	root := auxRootRev(hash, 0, 0)
+	script := append(append([]byte{0xfa, 0xbe, 'm', 'm'}, root...), 1, 0, 0, 0, 0, 0, 0, 0)
+	blk.Header.AuxPow = *buildAuxPow(true, 1, script, 0, 0)
+	target := blockchain.CompactToBig(blk.Header.Bits)
+	for nn := uint32(0); nn < 1000; nn++ {
+		blk.Header.AuxPow.ParBlockHeader.Nonce = nn
+		h := blk.Header.AuxPow.ParBlockHeader.Hash()
+		if blockchain.HashToBig(&h).Cmp(target) <= 0 {
+			break
+		}
+	}
+	if err := n.Chain.CheckBlockSanity(blk); err != nil {
+		return "harness-precondition:not-sane:" + strings.ReplaceAll(err.Error(), " ", "_")
+	}
+	lastStage = "sane"
+	if _, _, err := n.Chain.ProcessBlock(blk, nil); err != nil {
+		return "rejected"
+	}
+	return "accepted"
+}
+
 // ---------------------------------------------------------------- exec
 
 func exec(t []string) string {
-	useLedger(t[0] == "txs" || t[0] == "blkc" || t[0] == "cfm" || t[0] == "dpb")
+	useLedger(t[0] == "txs" || t[0] == "blkc" || t[0] == "cfm" || t[0] == "dpb" || t[0] == "pgen")
 	switch t[0] {
 	case "std":
 		return b2s(contract.IsStandard(exact(hx.UnHex(t[1]))))
@@ -867,6 +977,10 @@ func exec(t []string) string {
 		return execCfm(t)
 	case "dpb":
 		return execDpb(t)
+	case "nta", "ntv":
+		return execNt(t)
+	case "pgen":
+		return execPgen(t)
 	case "tcc":
 		return execTcc(t)
 	case "rtd":
@@ -1241,6 +1355,21 @@ func genRun(g *hx.Gen) {
 		}
 		g.Emit("%s", runLine(data, hs, ps))
 	}
+	// Schnorr programs whose compressed key has an x coordinate at or above the field prime P (top bits all ones):
+	// SchnorrVerify must reject them, whatever the decompression does with x mod P
+	pP := crypto.DefaultParams.P
+	for k := int64(0); k < 48; k++ {
+		x := new(big.Int).Add(pP, big.NewInt(k))
+		for _, pre := range []byte{2, 3} {
+			code := append([]byte{0x51, 33, pre}, x.Bytes()...)
+			if len(code) != 35 {
+				continue
+			}
+			g.Emit("schn %s %s", hx.Hex(code), hx.Hex(make([]byte, 64)))
+			hs := []hashIn{{Pfx: 0x21, Hash: common.ToCodeHash(code).Bytes()}}
+			g.Emit("%s", runLine([]byte{1, 2, 3}, hs, []progIn{{Code: code, Param: make([]byte, 64)}}))
+		}
+	}
 	// the helper functions alone, on every short length
 	for l := 0; l <= 72; l++ {
 		for _, pl := range []int{0, 10, 63, 64, 65} {
@@ -1551,6 +1680,9 @@ func genSweep(g *hx.Gen) {
 			}
 			if first != nil {
 				g.Emit("txs %d %s", hf, hx.Hex(first))
+				if r.Chance(35) { // the same transaction once more (relay by a second peer): references now come out of the UTXO cache
+					g.Emit("txs %d %s", hf, hx.Hex(first))
+				}
 				if r.Chance(40) {
 					g.Emit("txs %d %s", hf, hx.Hex(wire.Mutate(r, first)))
 				}
@@ -1719,8 +1851,105 @@ func genDpb(g *hx.Gen) {
 	}
 }
 
+func genNt(g *hx.Gen) {
+	r := g.R
+	ids := func(n int, pool []int) string {
+		if n == 0 {
+			return "-"
+		}
+		var f []string
+		for i := 0; i < n; i++ {
+			f = append(f, strconv.Itoa(pool[i%len(pool)]))
+		}
+		return strings.Join(f, ",")
+	}
+	for i := 0; i < g.N(400, 5000); i++ {
+		// next arbitrators: some CRC, some not; payload lists consistent, short, long or shifted
+		k := r.Intn(6)
+		var next []string
+		var crIDs, dpIDs []int
+		for j := 0; j < k; j++ {
+			id := 1 + j
+			isCRC := r.Chance(45)
+			el := r.Chance(50)
+			next = append(next, fmt.Sprintf("%d:%d:%d", id, map[bool]int{true: 1, false: 0}[isCRC], map[bool]int{true: 1, false: 0}[el]))
+			if isCRC {
+				if r.Chance(15) {
+					crIDs = append(crIDs, 0) // empty key stands for a not yet elected member
+				} else {
+					crIDs = append(crIDs, id)
+				}
+			} else {
+				dpIDs = append(dpIDs, id)
+			}
+		}
+		nCR, nDP := len(crIDs), len(dpIDs)
+		switch r.Intn(5) {
+		case 0: // all keys declared as DPoS keys, none as CR keys (sum of lengths still right)
+			nDP, nCR = nCR+nDP, 0
+			dpIDs = append(dpIDs, crIDs...)
+			crIDs = nil
+		case 1: // the other way round
+			nCR, nDP = nCR+nDP, 0
+			crIDs = append(crIDs, dpIDs...)
+			dpIDs = nil
+		case 2:
+			if nCR > 0 {
+				nCR--
+			}
+		}
+		if len(crIDs) == 0 {
+			crIDs = []int{9}
+		}
+		if len(dpIDs) == 0 {
+			dpIDs = []int{9}
+		}
+		ns := "-"
+		if len(next) > 0 {
+			ns = strings.Join(next, ";")
+		}
+		g.Emit("nta %s %s %s", ids(nCR, crIDs), ids(nDP, dpIDs), ns)
+		// V1: next = DPoS list, nextCRC separate
+		var n1, c1 []string
+		var d1, cr1 []int
+		for j := 0; j < r.Intn(4); j++ {
+			n1 = append(n1, fmt.Sprintf("%d:%d", 1+j, r.Intn(2)))
+			d1 = append(d1, 1+j)
+		}
+		for j := 0; j < r.Intn(4); j++ {
+			c1 = append(c1, fmt.Sprintf("%d:%d", 20+j, r.Intn(2)))
+			cr1 = append(cr1, 20+j)
+		}
+		nc := len(cr1)
+		switch r.Intn(4) {
+		case 0:
+			nc = r.Intn(nc + 1) // fewer CR keys than next CRC arbiters
+		case 1:
+			nc++
+		}
+		if len(cr1) == 0 {
+			cr1 = []int{9}
+		}
+		if len(d1) == 0 {
+			d1 = []int{9}
+		}
+		j1, j2 := "-", "-"
+		if len(n1) > 0 {
+			j1 = strings.Join(n1, ";")
+		}
+		if len(c1) > 0 {
+			j2 = strings.Join(c1, ";")
+		}
+		g.Emit("ntv %s %s %s %s", ids(nc, cr1), ids(len(n1), d1), j1, j2)
+	}
+	for _, off := range []int{1, 50, 5000} {
+		g.Emit("pgen %d", off)
+	}
+}
+
 func gen(g *hx.Gen) {
 	mrand.Seed(int64(g.Seed))
+	genNt(g)
 	genDpb(g)
 	genTargeted(g)
 	genSweep(g)
